@@ -1121,3 +1121,131 @@ func TestC11ErrorTypes(t *testing.T) {
 	}
 	run.Exhaustive()
 }
+
+// aliasArgCase: a call one of whose arguments is a shared number and another an
+// expression that computes with the same number.
+type aliasArgCase struct {
+	Use   string `json:"use"`   // expression with X for the shared number
+	Kind  string `json:"kind"`  // local | dec | int | float
+	Val   string `json:"val"`   // the shared number
+	First bool   `json:"first"` // the shared number is the first argument (else the last)
+	Param string `json:"param"` // any | dec | float64 | int
+}
+
+func (c aliasArgCase) text() string {
+	x := map[string]string{"local": "$x", "dec": "dec", "int": "iv", "float": "fv"}[c.Kind]
+	u := strings.ReplaceAll(c.Use, "X", x)
+	f := "[got(" + u + ", " + x + "), " + x + "]"
+	if c.First {
+		f = "[got(" + x + ", " + u + "), " + x + "]"
+	}
+	if c.Kind == "local" {
+		f = "$x = " + c.Val + ", " + f
+	}
+	return f
+}
+
+func checkAliasArg(c aliasArgCase) string {
+	want, ok := ref.RatOf(strings.TrimPrefix(c.Val, "-"))
+	if !ok {
+		return "HARNESS: bad value " + c.Val
+	}
+	if strings.HasPrefix(c.Val, "-") {
+		want.Neg(want)
+	}
+	d := new(decimal.Big)
+	d.SetString(c.Val)
+	iv, _ := strconv.Atoi(c.Val)
+	fv, _ := strconv.ParseFloat(c.Val, 64)
+	var seen []string // the shared argument as it arrived, read at the time of the call
+	note := func(v interface{}) {
+		if r, ok := obs.Rat(v); ok {
+			seen = append(seen, r.RatString())
+		} else {
+			seen = append(seen, obs.Show(v))
+		}
+	}
+	pick := func(a, b interface{}) interface{} {
+		if c.First {
+			return a
+		}
+		return b
+	}
+	var fn interface{}
+	switch c.Param {
+	case "any":
+		fn = func(a, b interface{}) (int, error) { note(pick(a, b)); return 1, nil }
+	case "dec":
+		fn = func(a, b *decimal.Big) (int, error) { note(pick(a, b)); return 1, nil }
+	case "float64":
+		fn = func(a, b float64) (int, error) { note(pick(a, b)); return 1, nil }
+	default:
+		fn = func(a, b int) (int, error) { note(pick(a, b)); return 1, nil }
+	}
+	data := map[string]interface{}{"dec": d, "iv": iv, "fv": fv, "got": fn}
+	text := c.text()
+	p := obs.Parse([]byte(text))
+	if !p.OK() {
+		return fmt.Sprintf("HARNESS: %q does not parse: %v", text, p.Err)
+	}
+	for round := 1; round <= 2; round++ {
+		seen = nil
+		r := formula.NewRunner()
+		r.SetThis(data)
+		out := obs.Eval(r, context.Background(), p.Src.Expression)
+		arr, isArr := out.Val.([]interface{})
+		if out.Panic != nil || out.Err != nil || !isArr || len(arr) != 2 {
+			return fmt.Sprintf("%s with got declared func(%s, %s) -> %s", text, c.Param, c.Param, out)
+		}
+		if len(seen) != 1 || seen[0] != want.RatString() {
+			return fmt.Sprintf("%s with got declared func(%s, %s) (evaluation %d over the same data): the argument %s arrived as %v, want %s once", text, c.Param, c.Param, round, map[bool]string{true: "1", false: "2"}[c.First], seen, c.Val)
+		}
+		if g, isNum := obs.Rat(arr[1]); !isNum || g.Cmp(want) != 0 {
+			return fmt.Sprintf("%s (evaluation %d over the same data): the shared number reads %s after the call, want %s", text, round, obs.Show(arr[1]), c.Val)
+		}
+		delete(data, "$x")
+	}
+	return ""
+}
+
+func init() {
+	h.RegisterReplay("c11-alias", func(raw json.RawMessage) string {
+		c, err := h.Decode[aliasArgCase](raw)
+		if err != nil {
+			return "bad replay: " + err.Error()
+		}
+		return checkAliasArg(c)
+	})
+}
+
+// TestC11AliasedArguments: every argument arrives with the value its expression
+// has - also when a neighbouring argument computes with the same number.
+func TestC11AliasedArguments(t *testing.T) {
+	uses := []string{"-X", "-(X ?? 0)", "-(X || 0)", "-(true ? X : 0)", "-max(X, X)", "-(0, X)", "-($y = X)", "+X", "~X", "X + 1", "X * 2", "0 - X", "abs(X)", "round(X)", "floor(X)", "-toFloat(X)", "-finite(X)", "-min(X, 1000)"}
+	run := h.Begin("C11", "aliased-arguments", fmt.Sprintf("bounded-exhaustive: got(X, U) and got(U, X) for %d expressions U that compute with the same number X (unary minus directly and through ??, ||, ?:, comma, assignment, max/min/finite/toFloat; ~, arithmetic, numeric builtins) x X held as a local, a caller's *decimal.Big, int and float64 x 3 values x parameters declared interface{}, *decimal.Big, float64, int, each evaluated twice over the same data; oracle: one invocation, X arrives with its own value (read at the time of the call), and reads the same afterwards; every case non-trivial", len(uses)))
+	defer run.End(t)
+	var idx int64
+	for _, use := range uses {
+		for _, kind := range []string{"local", "dec", "int", "float"} {
+			for _, val := range []string{"3", "-7", "12"} {
+				for _, first := range []bool{true, false} {
+					for _, param := range []string{"any", "dec", "float64", "int"} {
+						idx++
+						if !h.Mine(idx) || run.NViolations() >= 3 {
+							continue
+						}
+						c := aliasArgCase{Use: use, Kind: kind, Val: val, First: first, Param: param}
+						run.Count(true, kind)
+						if idx%173 == 0 {
+							run.Sample(kind, c.text())
+						}
+						if msg := checkAliasArg(c); msg != "" {
+							run.Fail("c11-alias", c, msg)
+						}
+					}
+				}
+			}
+		}
+	}
+	run.Exhaustive()
+}
